@@ -321,10 +321,41 @@ class RefTraj:
             val += self.Zr[k][l][j] * lj
         return val
 
+    def _qcum(self):
+        """running value of the user quadrature state at every integrator point (the method's own quadrature)"""
+        if getattr(self, "_qc", None) is not None:
+            return self._qc
+        d, N, M = self.d, self.N, self.M
+        fn = lambda m, p: P.quad_integrand(m, p.s, d)
+        self._in_qcum = True
+        try:
+            Q = {}; tot = 0.0
+            for k in range(N):
+                dt = (self.tc[k + 1] - self.tc[k]) / M
+                x = self.X[:, k].copy()
+                for l in range(M):
+                    Q[(k, l)] = tot
+                    if d["method"] == "DC":
+                        for j in range(d["degree"]):
+                            tot = tot + self.col["b"][j] * dt * fn(NP, self.pt_root(k, l, j))
+                    else:
+                        x, qs, _ = self.step(k, x, self.tc[k] + l * dt, dt, quad_fns=(fn,))
+                        tot = tot + qs[0]
+            Q["final"] = tot
+        finally:
+            self._in_qcum = False
+        self._qc = Q
+        return Q
+
+    def _add_q(self, s, key):
+        if self.d.get("quad") and not getattr(self, "_in_qcum", False):
+            s["q"] = self._qcum()[key]
+
     def pt_control(self, n):
         s = self._interval_env(n, node=n)
         s.update(unflatten(self.d, self.X[:, n]))
         s["t"] = self.tc[n]
+        self._add_q(s, (n, 0) if n < self.N else "final")
         if self.d["alg"] and self.d["method"] == "DC":
             s["z"] = self.zpoly(n, 0, 0.0) if n < self.N else self.zpoly(self.N - 1, self.M - 1, 1.0)
         return RefPt(self, "control", n, s)
@@ -333,6 +364,7 @@ class RefTraj:
         s = self._interval_env(k, node=k)
         s.update(unflatten(self.d, self.Xi[k][l]))
         s["t"] = self.ti[k][l]
+        self._add_q(s, (k, l))
         if self.d["alg"] and self.d["method"] == "DC":
             s["z"] = self.zpoly(k, l, 0.0)
         return RefPt(self, "integrator", (k, l), s)
